@@ -75,7 +75,17 @@ fn main() {
                 usage();
             }
             let code = match CHECKS.iter().find(|(i, _, _)| *i == id) {
-                Some((_, run, _)) => run(&tier, seed),
+                Some((_, run, _)) => {
+                    // a panic that escapes a check is a defect of the harness, never a verdict
+                    match std::panic::catch_unwind(std::panic::AssertUnwindSafe(|| run(&tier, seed))) {
+                        Ok(code) => code,
+                        Err(_) => {
+                            let what = engine::LAST_PANIC_ANYWHERE.lock().ok().and_then(|g| g.clone());
+                            eprintln!("HARNESS-ERROR property={id} the check itself panicked: {}", what.unwrap_or_default());
+                            2
+                        }
+                    }
+                }
                 None => {
                     eprintln!("unknown property {id}");
                     2
